@@ -536,6 +536,9 @@ MODEL = {
     "DSYNC": ([("rrtype", "u"), ("scheme", "u"), ("port", "u"), ("target", "nm")], None),
     "KEY": _DNSKEY,
     "RRSIG": _RRSIG, "SIG": _RRSIG,
+    "NSEC": ([("next", "nm")], ("windows", "wl")),
+    "CSYNC": ([("serial", "u"), ("flags", "u")], ("windows", "wl")),
+    "NSEC3": ([("algorithm", "u"), ("flags", "u"), ("iterations", "u"), ("salt", "b"), ("next", "b")], ("windows", "wl")),
 }
 B64_TAIL = {"DNSKEY", "CDNSKEY", "DHCID", "OPENPGPKEY", "BRID", "HHIT", "CERT", "KEY", "RRSIG", "SIG"}
 TXT_LIKE = {"TXT", "SPF", "AVC", "NINFO", "RESINFO", "WALLET"}
@@ -558,6 +561,8 @@ def _fv(v, kind):
         return "b" + hx(socket.inet_pton(socket.AF_INET6, v))
     if kind == "bl":
         return "l" + ";".join(hx(bytes(x)) for x in v)
+    if kind == "wl":
+        return "w" + ";".join(f"{int(w)}:{hx(bytes(bm))}" for w, bm in v)
     raise ValueError(kind)
 
 
@@ -842,7 +847,10 @@ NAME_ATOMS = ["@", ".", "a.", "a", "a.b", "www.example.", "a..b", "\\.", "\\046.
 BLOB_ATOMS = ["00", "ff", "abcd", "ABCD", "abc", "0g", "a b", "AA==", "AAA=", "AAAA", "A===", "=", "AA", "QUJD", "QU JD", "QUJDRA==", "Zm9v", "Zm9", "Zg=="]
 ADDR_ATOMS = ["1.2.3.4", "01.2.3.4", "256.1.1.1", "1.2.3", "1.2.3.4.5", "0.0.0.0", "255.255.255.255", "::", "::1", "1::", "::1.2.3.4", "::ffff:1.2.3.4",
               "1:2:3:4:5:6:7:8", "1:2:3:4:5:6:7::", "::2:3:4:5:6:7:8", ":1", "1:", ":::", "12345::", "g::", "1::2::3", "FFFF::", "0:0:0:0:0:0:0:0", "1.2.3.4\\010"]
-MISC_ATOMS = ["NOKEY", "NOCONF|ZONE", "NOAUTH|NOCONF", "ZONE|SIG3", "NOKEY|", "nokey", "49152", "0xC000", "DNSSEC", "ALL", "TLS", "tls", "256",
+MISC_ATOMS = ["0123456789abcdefghijklmnopqrstuv", "2t7b4g4vsa5smi47k61mv5bv1a22bojr", "2T7B4G4VSA5SMI47K61MV5BV1A22BOJR", "wxyz0000", "ab", "abc", "a",
+              "abcd", "abcde", "abcdef", "abcdefg", "ag======", "a=", "0v", "0w", "0!", "A NS SOA RRSIG NSEC DNSKEY CAA", "NSEC URI", "TYPE1234 A A",
+              "TYPE65535 TYPE256", "TYPE255 TYPE256 TYPE511 TYPE512", "CAA A", "-",
+              "NOKEY", "NOCONF|ZONE", "NOAUTH|NOCONF", "ZONE|SIG3", "NOKEY|", "nokey", "49152", "0xC000", "DNSSEC", "ALL", "TLS", "tls", "256",
               "NSAP-PTR", "NSAP_PTR", "nsap-ptr", "TYPE01", "type1", "TYPE65535", "TYPE", "TYPE-1", "NONE", "ANY", "A-", "-A",
               "20380119031407", "19700101000000", "21060207062815", "21060207062816", "20240229120000", "20230229120000", "20241301000000",
               "20240100000000", "2024011x000000", "+0240101000000", "2024_101000000", "00000101000000", "00010101000000", "4294967295", "4294967296",
@@ -1094,7 +1102,7 @@ def gen_ft(ctx: Ctx, scale: float, rng):
 # per-type status of the Lean side (mirrors C05.provedTypes / Model.modelledTypes; the oracle covers every type)
 PROVED = ["A", "AAAA", "NS", "CNAME", "PTR", "DNAME", "NSAP-PTR", "MX", "AFSDB", "RT", "KX", "LP", "PX", "SRV", "RP", "SOA", "TXT", "SPF", "AVC",
           "NINFO", "RESINFO", "WALLET", "HINFO", "X25", "ISDN", "NAPTR", "CAA", "URI", "DS", "DLV", "CDS", "TLSA", "SMIMEA", "SSHFP", "ZONEMD", "DNSKEY",
-          "CDNSKEY", "DHCID", "OPENPGPKEY", "BRID", "HHIT", "L32", "NSEC3PARAM", "CH-A", "EUI48", "EUI64", "NID", "L64", "NSAP", "CERT", "DSYNC", "KEY", "RRSIG", "SIG"]
+          "CDNSKEY", "DHCID", "OPENPGPKEY", "BRID", "HHIT", "L32", "NSEC3PARAM", "CH-A", "EUI48", "EUI64", "NID", "L64", "NSAP", "CERT", "DSYNC", "KEY", "RRSIG", "SIG", "NSEC", "CSYNC", "NSEC3"]
 
 
 def type_status():
